@@ -2,6 +2,7 @@
   C16 — Only returning Noble-native tokens are processed, under the coin ICS-20 credits.
 -/
 import Orbiter.Lemmas.Ctx
+import Orbiter.Lemmas.Ledger
 import Orbiter.Props.C12
 namespace Orbiter.C16
 open Orbiter
@@ -84,6 +85,47 @@ theorem c16_same_coin (wr : Wiring) (c c' : Ctx) (pkt : Packet) (t : TransferAtt
   · simp only [Res.ok.injEq] at hi
     subst hi
     exact ⟨rfl, hb⟩
+
+/-- **End to end.** When an orbiter packet is acknowledged with success — on any wiring, with any faults
+injected — the stages were: the sweep, then the wrapped ICS-20 application whose one movement is the
+release of exactly `t.srcAmount` of `t.srcDenom` from the channel's escrow account to the orbiter account,
+then the dispatch of the payload with attributes `t`. At the moment the dispatch begins, the orbiter's whole
+balance in that denomination is exactly that credit: the coin the orbiter acts on is the coin — and all the
+coin — ICS-20 credited. -/
+theorem c16_balance_is_credit (wr : Wiring) (φ : Faults) (w : World) (pkt : Packet) (t : TransferAttrs) (p : Payload)
+    (hesc : wr.cfg.escrow pkt.dstPort pkt.dstChan ≠ wr.cfg.orbAddr) (hdust : wr.cfg.dustAddr ≠ wr.cfg.orbAddr)
+    (hs : (ibcRecv wr φ w pkt).ack.isSuccess = true) (ha : adaptPacket wr pkt = .ok (.orbiter t p)) :
+    ∃ c1 c2 c3 t3, beforeTransferHook wr φ w.orb (ctxOf w) t p = .ok c1 ∧ wrappedApp wr φ c1 pkt = .ok c2 ∧
+      dispatchPayload wr φ w.orb c2 t p = .ok (c3, t3, (ibcRecv wr φ w pkt).orb) ∧
+      c2.moves = c1.moves ++ [.xfer (wr.cfg.escrow pkt.dstPort pkt.dstChan) wr.cfg.orbAddr t.srcDenom t.srcAmount.toNat] ∧
+      c2.bank.bal wr.cfg.orbAddr t.srcDenom = t.srcAmount.toNat ∧
+      t.dstDenom = t.srcDenom ∧ t.dstAmount = t.srcAmount := by
+  obtain ⟨c1, c2, c3, t3, h1, h2, h3, _⟩ := ibcRecv_success_dispatch hs ha
+  refine ⟨c1, c2, c3, t3, h1, h2, h3, ?_⟩
+  obtain ⟨_, _, hdd, hda, _⟩ := C12.c12_source_from_packet wr pkt t p ha
+  -- the sweep leaves nothing of the denomination on the orbiter account
+  have hzero : c1.bank.bal wr.cfg.orbAddr t.srcDenom = 0 := by
+    unfold beforeTransferHook at h1
+    simp only [Res.guard_bind_eq_ok] at h1
+    obtain ⟨_, h1⟩ := h1
+    rw [hdd] at h1
+    split at h1
+    · rename_i hb
+      simp only [Res.pure_eq, Res.ok.injEq] at h1
+      subst h1
+      simpa using hb
+    · obtain ⟨c0, hc0, h1⟩ := Res.bind_eq_ok.mp h1
+      have := Ctx.send_from_exact h1 hdust
+      rw [this, Ctx.call_bank hc0]
+      simp [ctxOf]
+  unfold wrappedApp at h2
+  obtain ⟨c1', hc, h2⟩ := Res.bind_eq_ok.mp h2
+  obtain ⟨hm, _, _, hb⟩ := c16_same_coin wr c1' c2 pkt t p ha h2
+  have hmv : c1'.moves = c1.moves := by simpa using (Ctx.call_steps hc).1
+  refine ⟨by rw [hm, hmv], ?_, hdd, hda⟩
+  rw [Ledger.send_bal hb wr.cfg.orbAddr t.srcDenom, Ctx.call_bank hc, hzero]
+  have hne : ¬ (wr.cfg.orbAddr = wr.cfg.escrow pkt.dstPort pkt.dstChan) := fun e => hesc e.symm
+  simp [hne]
 
 /-! ### non-vacuity
 `String.startsWith` / `String.drop` do not reduce in the kernel, so the satisfiability of the hypotheses is
